@@ -204,6 +204,18 @@ func c13Body(c *vk.Ctx, cs hCase) {
 						expect = t.broadcast
 					case "prophet":
 						expect = advertised && !t.broadcast
+						if pr, ok := w.s.core.routing.(*Prophet); ok && expect {
+							// every vector a peer sends also raises the node's own predictability for the advertised
+							// destination (transitivity accumulates): after many advertisements it passes the peers' 0.9,
+							// and PRoPHET then rightly offers the bundle to nobody (the update rule itself is C19's subject)
+							pr.dataMutex.RLock()
+							own := pr.predictabilities[bpv7.MustNewEndpointID("dtn://faraway/inbox")]
+							pr.dataMutex.RUnlock()
+							if own >= 0.9 {
+								expect = false
+								c.Class("prophet: own predictability has passed the peers' (nobody eligible)")
+							}
+						}
 					case "spray":
 						// while copies remain: every failed transmission gave its copy back. The peer is eligible
 						// again; it need not be chosen if the copies available at this tick went to other peers.
@@ -218,6 +230,25 @@ func c13Body(c *vk.Ctx, cs hCase) {
 					}
 					if expect {
 						failedThenTick = true
+						if pr, ok := w.s.core.routing.(*Prophet); ok {
+							// diagnostics: what the algorithm knows
+							pr.dataMutex.RLock()
+							d := bpv7.MustNewEndpointID("dtn://faraway/inbox")
+							w.s.logf("prophet: own predictability for %v = %v; peers: %v", d, pr.predictabilities[d], func() map[string]float64 {
+								m := map[string]float64{}
+								for k, v := range pr.peerPredictabilities {
+									m[k.String()] = v[d]
+								}
+								return m
+							}())
+							pr.dataMutex.RUnlock()
+							if bi, err := w.s.core.store.QueryId(bpv7.BundleID{}); err == nil {
+								_ = bi
+							}
+							for _, bi := range mustPending(w) {
+								w.s.logf("pending %s sent=%v", bi.Id, bi.Properties["routing/prophet/sent"])
+							}
+						}
 						w.s.failf("c13.failed-peer-not-eligible", "after %s: the last transmission of bundle %s to %s had failed, %s is still connected and the node still holds the bundle, but the retry tick did not offer the bundle to %s again (algorithm %s)", w.step, id, p, p, p, cs.Algo)
 					}
 				}
